@@ -50,6 +50,11 @@ Theorem C12_last_semicolon : forall g f last stk ip line rest n,
 Proof. exact last_semicolon. Qed.
 Print Assumptions C12_last_semicolon.
 
+(* the explicit fuel of the statements above is immaterial: once a run is complete, more fuel gives the same stream *)
+Theorem C12_fuel_irrelevant : forall n f st line x, t_done (lex_filtered n f st line x) -> forall k, lex_filtered (n + k) f st line x = lex_filtered n f st line x.
+Proof. exact lex_filtered_mono. Qed.
+Print Assumptions C12_fuel_irrelevant.
+
 (* the model tries the rules in the order of the lexer PLY builds from the source, and knows the same unit alternatives *)
 Theorem C12_rule_order : list_eqb (fun a b => str_eqb (fst a) (fst b) && list_eqb str_eqb (snd a) (snd b)) lex_rule_order model_rule_order = true
   /\ list_eqb str_eqb number_unit_alternatives model_units = true.
